@@ -75,6 +75,9 @@ def make(spec, cls=None):
     c = (cls or VectorContainer)(spec.make())
     c.add_variable('X', np.arange(spec.n, dtype=float))
     c.add_variable('K', np.arange(100, 100 + spec.n, dtype=np.int64))
+    # variables whose names ordinary attribute lookup would find something else under: the private storage of X, a property
+    c.add_variable('_X', np.arange(200, 200 + spec.n, dtype=float))
+    c.add_variable('size', np.arange(300, 300 + spec.n, dtype=float))
     return c
 
 
@@ -121,6 +124,31 @@ def check_spec(ctx, spec, cls=None):
             ch = changed(before, state(c))
             if ch != {('X', i)} or c.X[i] != -7.5:
                 ctx.violation('label-set', f'{kind}: obj["X", {lab!r}] = v changed cells {sorted(ch)}, expected only position {i}', dict(case, op='set'))
+    # variables named like something else the object has ('_X' is where X is stored, 'size' is a property): a label write goes to them
+    probe = make(spec, cls)
+    for name, base_ in (('_X', 200), ('size', 300)):
+        if name not in probe.__dict__['index']:
+            continue
+        for i in range(n):
+            lab = spec.labels[i][0]
+            if lab is None:
+                continue
+            c = make(spec, cls)
+            case = {'span_kind': kind, 'n': n, 'op': 'set', 'label': repr(lab), 'variable': name}
+            ctx.evaluation((kind, n, 'set', name, repr(lab)), sample=case)
+            before = state(c)
+            try:
+                got0 = c[name, lab]
+                c[name, lab] = -9.5
+                c[name, lab:lab] = -9.5
+                got = c[name, lab]
+            except Exception as e:
+                ctx.violation('label-set', f'{kind}: obj[{name!r}, {lab!r}] raised {type(e).__name__}: {e}', case)
+                continue
+            ctx.count('label_writes')
+            ch = changed(before, state(c))
+            if ch != {(name, i)} or got != -9.5 or got0 != base_ + i:
+                ctx.violation('label-set', f'{kind}: obj[{name!r}, {lab!r}] read {got0!r} (expected {base_ + i}); = v changed cells {sorted(ch)} and reads back {got!r}; expected only position {i} of {name!r}', case)
     # models: the solution-record variables (status, iterations) are addressed by label like any other variable
     probe = make(spec, cls)
     if 'iterations' in probe.__dict__['index']:
